@@ -1398,3 +1398,77 @@ func (l *Lang) IntParseDecimal() *report.RuleResult {
 	}
 	return res
 }
+
+// ---- empty-list-literal ---------------------------------------------------------------------------------
+//
+// The printer tells an absent list from a present one by nil-ness (the delimiters of an argument list are
+// printed when the list is not nil), the formatter by length (delimiters are generated when the list has
+// elements). The two agree as long as the grammars never put an empty but non-nil list into a node: an absent
+// list is nil, a present one has elements or comes with its delimiter tokens. The only empty list literals in
+// the actions are the values of the empty alternatives of list nonterminals (`$$ = []ast.Vertex{}`). The rule
+// requires exactly that: an empty slice literal (or make with length 0) appears in an action only as the whole
+// value assigned to `$$`, never as a field of a node or of a parser-private carrier (seed C17-13: the
+// placeholder of an anonymous class without parentheses got `Arguments: []ast.Vertex{}`; printed with `()`,
+// formatted without, and the formatted text parses into another tree).
+func (l *Lang) EmptyListLiteral() *report.RuleResult {
+	res := report.NewResult("empty-list-literal")
+	info := l.info()
+	for n := 1; n < len(l.Actions); n++ {
+		a := l.Actions[n]
+		if a == nil || a.Clause == nil {
+			continue
+		}
+		isEmptySlice := func(e ast.Expr) bool {
+			switch x := e.(type) {
+			case *ast.CompositeLit:
+				if len(x.Elts) != 0 {
+					return false
+				}
+				t := info.TypeOf(x)
+				if t == nil {
+					return false
+				}
+				_, ok := t.Underlying().(*types.Slice)
+				return ok
+			case *ast.CallExpr:
+				if id, ok := x.Fun.(*ast.Ident); ok && id.Name == "make" && len(x.Args) >= 2 {
+					if _, isSl := info.TypeOf(x).Underlying().(*types.Slice); isSl {
+						if tv := info.Types[x.Args[1]]; tv.Value != nil && tv.Value.String() == "0" {
+							return true
+						}
+					}
+				}
+			}
+			return false
+		}
+		// the literals that are the whole right-hand side of an assignment to the action's result
+		whole := map[ast.Expr]bool{}
+		ast.Inspect(a.Clause, func(nd ast.Node) bool {
+			if as, ok := nd.(*ast.AssignStmt); ok && len(as.Lhs) == 1 && len(as.Rhs) == 1 {
+				if se, ok := as.Lhs[0].(*ast.SelectorExpr); ok {
+					if id, ok := se.X.(*ast.Ident); ok && id.Name == "yyVAL" {
+						whole[as.Rhs[0]] = true
+					}
+				}
+			}
+			return true
+		})
+		i := 0
+		ast.Inspect(a.Clause, func(nd ast.Node) bool {
+			e, ok := nd.(ast.Expr)
+			if !ok || !isEmptySlice(e) {
+				return true
+			}
+			i++
+			res.Count("literals", 1)
+			key := fmt.Sprintf("%s:%s/literal#%d", l.L.Label, l.L.G.Key(a.Prod), i)
+			if whole[e] {
+				res.OK(key, l.Prog.Pos(e.Pos()), a.Prod.String(), "the value of an empty list production")
+			} else {
+				res.Bad(key, l.Prog.Pos(e.Pos()), a.Prod.String(), "an empty but non-nil list is put into a node or carrier: the printer takes it for present (prints the delimiters), the formatter for absent (drops them)")
+			}
+			return true
+		})
+	}
+	return res
+}
